@@ -28,13 +28,13 @@ TABLE_OPS = ["Put", "PutPrev", "PutIfAbsent", "GetOrPut", "PutOrRemove", "PutAtF
              "GetAndMoveToFront", "GetAndMoveToBack", "Remove", "RemoveGet", "RemoveFirst", "RemoveLast",
              "MoveToFront", "MoveToBack", "MoveToBefore", "MoveToBehind", "MoveToPosition",
              "SortByKey", "SortByValue", "SortSelf", "Reposition", "Swap", "Clear", "Destroy", "AssignFrom", "AssignTo", "PutAll", "MoveToTable",
-             "RemoveAll", "Intersect", "EnsureSize", "ShrinkToFit", "SetAutoSort", "EnsureCanPut"]
+             "RemoveAll", "Intersect", "EnsureSize", "ShrinkToFit", "SetAutoSort", "EnsureCanPut", "CopyToTable", "Self"]
 QUERY_OPS = ["Get", "IndexOfKey", "IndexOfValue", "GetKeyAt", "GetValueAt", "GetFirstKey", "GetLastKey", "GetKeyBefore", "GetKeyAfter", "ContainsValue", "NumItems", "IsEqualTo"]
 ITER_OPS = ["ItNew", "ItNewAt", "ItAdv", "ItRet", "ItFlip", "ItDel", "ItCopy"]
 ALL_OPS = [o for o in TABLE_OPS if o != "SetAutoSort"] + QUERY_OPS + ITER_OPS        # plain Hashtable: no auto-sort switch
 SORTED_OPS = ["Put", "PutPrev", "PutIfAbsent", "GetOrPut", "PutOrRemove", "Remove", "RemoveGet", "RemoveFirst", "RemoveLast", "SortSelf", "Reposition",
               "Swap", "Clear", "Destroy", "AssignFrom", "AssignTo", "PutAll", "MoveToTable", "RemoveAll", "Intersect", "EnsureSize", "ShrinkToFit",
-              "SetAutoSort", "MoveToFront", "MoveToBack", "MoveToBefore", "MoveToBehind", "MoveToPosition", "PutAtFront", "EnsureCanPut"] + QUERY_OPS + ITER_OPS
+              "SetAutoSort", "MoveToFront", "MoveToBack", "MoveToBefore", "MoveToBehind", "MoveToPosition", "PutAtFront", "EnsureCanPut", "CopyToTable", "Self"] + QUERY_OPS + ITER_OPS
 INVS = ["TypeOK", "IterSafe", "NoSkip", "NoTwice", "StaysSorted"]
 # calls whose effect on the table is representative of every other one (model checking of the iterator clauses)
 MC_OPS = ["Put", "PutAtFront", "PutBefore", "PutBehind", "PutAtPosition", "Remove", "RemoveFirst", "RemoveLast", "MoveToFront", "MoveToBack", "MoveToBefore",
@@ -42,9 +42,9 @@ MC_OPS = ["Put", "PutAtFront", "PutBefore", "PutBehind", "PutAtPosition", "Remov
           "ItNew", "ItNewAt", "ItAdv", "ItRet", "ItFlip", "ItDel"]
 MC_SINGLE = ["Put", "PutPrev", "PutIfAbsent", "GetOrPut", "PutOrRemove", "PutAtFront", "PutAtBack", "PutBefore", "PutBehind", "PutAtPosition", "GetAndMoveToFront", "GetAndMoveToBack",
              "Remove", "RemoveGet", "RemoveFirst", "RemoveLast", "MoveToFront", "MoveToBack", "MoveToBefore", "MoveToBehind", "MoveToPosition", "SortByKey", "SortByValue", "SortSelf",
-             "Clear", "Destroy", "EnsureSize", "ShrinkToFit", "EnsureCanPut", "ItNew", "ItNewAt", "ItAdv", "ItRet", "ItFlip", "ItDel"]
+             "Clear", "Destroy", "EnsureSize", "ShrinkToFit", "EnsureCanPut", "Self", "ItNew", "ItNewAt", "ItAdv", "ItRet", "ItFlip", "ItDel"]
 MC_TWO = ["Put", "PutOrRemove", "PutAtFront", "PutBefore", "PutAtPosition", "Remove", "RemoveFirst", "RemoveLast", "MoveToFront", "MoveToBack", "MoveToBehind", "MoveToPosition", "SortByKey",
-          "Swap", "Clear", "AssignFrom", "AssignTo", "PutAll", "MoveToTable", "RemoveAll", "Intersect", "ItNew", "ItNewAt", "ItAdv", "ItRet", "ItFlip", "ItDel"]
+          "Swap", "Clear", "AssignFrom", "AssignTo", "PutAll", "MoveToTable", "CopyToTable", "RemoveAll", "Intersect", "ItNew", "ItNewAt", "ItAdv", "ItRet", "ItFlip", "ItDel"]
 MC_SORTED = ["Put", "PutOrRemove", "Remove", "RemoveFirst", "RemoveLast", "SortSelf", "Reposition", "Swap", "Clear", "AssignFrom", "PutAll", "MoveToTable", "RemoveAll", "Intersect",
              "ItNew", "ItNewAt", "ItAdv", "ItDel"]
 # sorting classes with auto-sort switched off / explicit moves (order currently not the sorted one) followed by calls that reallocate
@@ -58,7 +58,7 @@ G_BIGARGS = ["Put", "Remove", "PutAtPosition", "MoveToPosition", "GetKeyAt", "Ge
 G_SINGLE = ["Put", "PutAtFront", "PutAtBack", "PutBefore", "PutBehind", "PutAtPosition", "GetAndMoveToFront", "GetAndMoveToBack", "Remove", "RemoveFirst", "RemoveLast",
             "MoveToFront", "MoveToBack", "MoveToBefore", "MoveToBehind", "MoveToPosition", "SortByKey", "Clear", "ItNew", "ItNewAt", "ItAdv", "ItRet", "ItFlip", "ItDel"]
 G_TWO = ["Put", "PutPrev", "PutIfAbsent", "GetOrPut", "PutOrRemove", "Remove", "RemoveGet", "SortSelf", "Swap", "Clear", "Destroy", "AssignFrom", "AssignTo", "PutAll",
-         "MoveToTable", "RemoveAll", "Intersect", "ItNew", "ItNewAt", "ItAdv", "ItDel"]
+         "MoveToTable", "CopyToTable", "Self", "RemoveAll", "Intersect", "ItNew", "ItNewAt", "ItAdv", "ItDel"]
 G_TWO_BIG = ["Put", "PutOrRemove", "Remove", "SortByValue", "Swap", "Clear", "AssignFrom", "PutAll", "MoveToTable", "RemoveAll", "Intersect", "ItNew", "ItAdv", "ItDel"]
 G_VALS = ["Put", "PutPrev", "PutIfAbsent", "GetOrPut", "PutOrRemove", "Remove", "RemoveGet", "SortByValue", "Clear", "ItNew", "ItNewAt", "ItAdv", "ItDel"]
 G_BLOCK = ["Put", "PutAtBack", "PutBefore", "PutBehind", "PutAtPosition", "GetAndMoveToBack", "Remove", "RemoveLast", "MoveToBack", "MoveToBefore", "MoveToBehind",
@@ -127,7 +127,8 @@ def _run(v, tier, seed, quick):
     W = lambda n: vlib.scratch("C09", n)
     ht = vlib.binpath("asan", "ht")
     build_ex = cf.ThreadPoolExecutor(max_workers=1)
-    f_build = build_ex.submit(vlib.make, "asan", "ht")       # the TLC work does not have to wait for the compiler
+    htc = vlib.binpath("asan", "htc")      # same program, keys and values of an owning non-trivial type
+    f_build = build_ex.submit(vlib.make, "asan", "ht", "htc")       # the TLC work does not have to wait for the compiler
     pool = _Pool(8)
     tot = {"states": 0, "transitions": 0, "behaviours": 0, "followed": 0, "cut": 0, "drift": 0, "steps": 0, "itchecks": 0, "replays": 0,
            "runs": 0, "calls": 0, "lines": 0, "lines_ok": 0, "runs_ok": 0}
@@ -191,32 +192,48 @@ def _run(v, tier, seed, quick):
                 if i % every == 0: g.write(line)
         return out
 
-    def replay(tag, bf, bad, P, slack, cls=0):
-        rep = W("rep_%s_%d_%d_%d_%d.ndjson" % (tag.replace("/", "-"), bad, P, slack, cls)); prog = rep + ".progress"
+    def replay(tag, bf, bad, P, slack, cls=0, canary=0, alias=None):
+        if alias is None: alias = (bad + slack + cls + canary) % 2           # aliasing arguments in about half of the configurations
+        rep = W("rep_%s_%d_%d_%d_%d_%d%d.ndjson" % (tag.replace("/", "-"), bad, P, slack, cls, canary, alias)); prog = rep + ".progress"
         f_build.result(); t0 = time.time()
-        rc, out, err = vlib.run([ht, "replay", bf, rep, str(bad), str(P), str(slack), prog, str(cls)], timeout=3000)
-        info = {"instance": tag, "class": ["Hashtable", "OrderedKeysHashtable", "OrderedValuesHashtable"][cls], "hash": HNAME[bad], "prefill": P, "slack": slack, "wall_s": round(time.time() - t0, 1)}
+        exe = htc if canary else ht
+        rc, out, err = vlib.run([exe, "replay", bf, rep, str(bad), str(P), str(slack), prog, str(cls), str(alias * (7 + bad + slack))], timeout=3000)
+        info = {"instance": tag, "class": ["Hashtable", "OrderedKeysHashtable", "OrderedValuesHashtable"][cls], "hash": HNAME[bad], "prefill": P, "slack": slack,
+                "key_value_type": "owning non-trivial" if canary else "int", "aliasing_arguments": bool(alias), "wall_s": round(time.time() - t0, 1)}
         if os.environ.get("C09_TIMING"): vlib.log("  [t+%.0fs] replay %s took %.1fs" % (time.time() - T0[0], info, time.time() - t0))
         if rc != 0:
             cur = open(prog).read().strip() if os.path.exists(prog) else "?"
             if rc in (66, 67) or rc < 0 or "Sanitizer" in err or "runtime error" in err:
                 return info, None, {"what": "sanitizer report / crash (rc=%s) while replaying behaviour %s of %s (hash=%d prefill=%d slack=%d): %s" % (rc, cur, bf, bad, P, slack, _first_report(err)),
-                                    "replay": {"behaviours": bf, "behaviour": cur, "argv": [ht, "replay", bf, rep, str(bad), str(P), str(slack), prog, str(cls)], "stderr": err[-3000:]}}
+                                    "replay": {"behaviours": bf, "behaviour": cur, "argv": [exe, "replay", bf, rep, str(bad), str(P), str(slack), prog, str(cls), str(alias * (7 + bad + slack))], "stderr": err[-3000:]}}
             raise vlib.MachineryError("ht replay failed rc=%s: %s %s" % (rc, out[-300:], err[-1500:]))
         return info, vlib.read_ndjson(rep), None
+
+    def directed_known():
+        """Known finding HputBeforeAlias: the directed case, in both builds and both calls; a sanitizer report reproduces it, a clean run with the documented result means it is repaired."""
+        f_build.result(); hits = []; clean = 0
+        for exe in (ht, htc):
+            for behind in ("0", "1"):
+                rc, out, err = vlib.run([exe, "directed", "putbefore-alias", behind], timeout=300)
+                if rc in (66, 67) or rc < 0 or "Sanitizer" in err: hits.append(_first_report(err))
+                elif rc == 0: clean += 1
+                else: hits.append("wrong result: " + out.strip()[:200])
+        return hits, clean
 
     # ---------------------------------------------------------------------------------------- 3. code -> spec
     K, V, NIT = 5, 3, 3
 
     def random_runs(idx, cls, bad, P, slack, runs, nops):
+        canary = 1 if idx % 5 in (1, 3) else 0; alias = 0 if idx % 4 == 0 else 3 + idx; exe = htc if canary else ht
         rep = W("rnd_%d.ndjson" % idx); tr = W("trace_%d.ndjson" % idx)
         f_build.result(); t0 = time.time()
-        rc, out, err = vlib.run([ht, "random", rep, tr, str(seed * 131 + idx), str(runs), str(nops), str(cls), str(bad), str(P), str(slack), str(K), str(V), str(NIT)], timeout=3000)
-        info = {"class": ["Hashtable", "OrderedKeysHashtable", "OrderedValuesHashtable"][cls], "hash": HNAME[bad], "prefill": P, "slack": slack, "runs": runs, "calls_per_run": nops}
+        rc, out, err = vlib.run([exe, "random", rep, tr, str(seed * 131 + idx), str(runs), str(nops), str(cls), str(bad), str(P), str(slack), str(K), str(V), str(NIT), str(alias)], timeout=3000)
+        info = {"class": ["Hashtable", "OrderedKeysHashtable", "OrderedValuesHashtable"][cls], "hash": HNAME[bad], "prefill": P, "slack": slack, "runs": runs, "calls_per_run": nops,
+                "key_value_type": "owning non-trivial" if canary else "int", "aliasing_arguments": bool(alias)}
         if rc != 0:
             if rc in (66, 67) or rc < 0 or "Sanitizer" in err or "runtime error" in err:
                 return info, None, None, {"what": "sanitizer report / crash (rc=%s) in a random run (%s): %s" % (rc, info, _first_report(err)),
-                                          "replay": {"argv": [ht, "random", rep, tr, str(seed * 131 + idx), str(runs), str(nops), str(cls), str(bad), str(P), str(slack), str(K), str(V), str(NIT)], "stderr": err[-3000:]}}
+                                          "replay": {"argv": [exe, "random", rep, tr, str(seed * 131 + idx), str(runs), str(nops), str(cls), str(bad), str(P), str(slack), str(K), str(V), str(NIT), str(alias)], "stderr": err[-3000:]}}
             raise vlib.MachineryError("ht random failed rc=%s: %s %s" % (rc, out[-300:], err[-1500:]))
         rows = vlib.read_ndjson(rep)
         if os.environ.get("C09_TIMING"): vlib.log("  [t+%.0fs] random %s took %.1fs" % (time.time() - T0[0], info, time.time() - t0))
@@ -284,6 +301,7 @@ def _run(v, tier, seed, quick):
         f_mc = [ex.submit(model_check, *j) for j in mc_jobs + sorted_mc]
         f_wr = [ex.submit(wrong_variant, w, inv) for w, inv in (("remove_no_fixup", "IterSafe"), ("no_reorder_exemption", "NoSkip"), ("no_reorder_exemption", "NoTwice"), ("moves_keep_tight", "StaysSorted"))]
         f_rnd = [ex.submit(random_runs, i, *j) for i, j in enumerate(rnd)]
+        f_dir = ex.submit(directed_known)
         f_rep = []
         for f in cf.as_completed(f_gen):
             tag, bf, nb = f.result()
@@ -291,24 +309,26 @@ def _run(v, tier, seed, quick):
             with open(bf) as fh: first = json.loads(fh.readline())
             samples.append({"kind": "behaviour replayed (%s)" % tag, "steps": [s for s in first["steps"] if s.get("op") != "-"][:6]})
             if tag == "bigargs":
-                for h, slack in ((0, 0), (1, 1), (2, 2), (4, 3)): f_rep.append(ex.submit(replay, tag, bf, h, 0, slack))
+                for h, slack in ((0, 0), (1, 1), (2, 2), (4, 3)): f_rep.append(ex.submit(replay, tag, bf, h, 0, slack, 0, h % 2))
                 for slack in (0, 1, 2, 3): f_rep.append(ex.submit(replay, tag, bf, (0, 2, 1, 4)[slack], 253, slack))
                 for slack in ((2,) if quick else (0, 1, 2, 3)): f_rep.append(ex.submit(replay, tag + "/%d" % (8 if quick else 2), subset(bf, tag, 8 if quick else 2), slack % 2, 65533, slack))
             elif tag == "ordered":
                 for cls in (1, 2):
-                    for bad, slack in (((0, 1), (1, 2), (0, 0)) if quick else [(h, sl) for h in (0, 1) for sl in (0, 1, 2, 3)]): f_rep.append(ex.submit(replay, tag, bf, bad, 0, slack, cls))
+                    for bad, slack in (((0, 1), (1, 2), (0, 0)) if quick else [(h, sl) for h in (0, 1) for sl in (0, 1, 2, 3)]): f_rep.append(ex.submit(replay, tag, bf, bad, 0, slack, cls, bad))
                     f_rep.append(ex.submit(replay, tag, bf, cls % 2, 253, cls, cls))
                     f_rep.append(ex.submit(replay, tag, bf, 2 if cls == 1 else 4, 0, 2, cls)); f_rep.append(ex.submit(replay, tag, bf, 4 if cls == 1 else 2, 0, 1, cls))
             elif tag == "block":
                 for P in (253,):
-                    for slack in (0, 1, 2, 3): f_rep.append(ex.submit(replay, tag, bf, (0, 2, 1, 4)[slack], P, slack))
+                    for slack in (0, 1, 2, 3): f_rep.append(ex.submit(replay, tag, bf, (0, 2, 1, 4)[slack], P, slack, 0, 1 if slack == 2 else 0))
                     if not quick:
                         for slack in (0, 1, 2, 3): f_rep.append(ex.submit(replay, tag, bf, (slack + 1) % 2, P, slack))
                 sub = subset(bf, tag, big_every)
                 for slack in ((1, 3) if quick else (0, 1, 2, 3)): f_rep.append(ex.submit(replay, tag + "/%d" % big_every, sub, (slack // 2) % 2, 65533, slack))
                 if not quick: f_rep.append(ex.submit(replay, tag, bf, 0, 0, 0)); f_rep.append(ex.submit(replay, tag, bf, 2, 253, 1)); f_rep.append(ex.submit(replay, tag, bf, 4, 253, 3))
             else:
-                for bad, slack in (((0, 0), (1, 1)) if quick else [(h, sl) for h in (0, 1) for sl in (0, 1, 2, 3)]): f_rep.append(ex.submit(replay, tag, bf, bad, 0, slack))
+                for bad, slack in (((0, 0), (1, 1)) if quick else [(h, sl) for h in (0, 1) for sl in (0, 1, 2, 3)]): f_rep.append(ex.submit(replay, tag, bf, bad, 0, slack, 0, bad, bad))
+                if not quick:
+                    for bad, slack in ((0, 1), (2, 0), (4, 2)): f_rep.append(ex.submit(replay, tag, bf, bad, 0, slack, 0, 1, 1))
                 # adversarial hash layouts: boundary hash codes, the key whose default hash code is the guard value, codes colliding modulo the table size
                 for h, slack in ({"single": ((2, 1), (3, 2)), "two": ((4, 0), (2, 2)), "vals": ((4, 1), (3, 0)), "twoit": ((2, 0), (4, 2)), "sim": ((2, 1), (4, 0), (3, 2))}.get(tag, ((2, 1), (4, 0))) if quick or tag.endswith("_big") else [(h, sl) for h in (2, 3, 4, 6) for sl in (0, 1, 2)]): f_rep.append(ex.submit(replay, tag, bf, h, 0, slack))
                 if not (quick and tag == "single"): f_rep.append(ex.submit(replay, tag, bf, 1, 253, 1))     # most behaviours are cut at a call that is not applicable next to a block; the rest still counts
@@ -331,6 +351,11 @@ def _run(v, tier, seed, quick):
                 elif r.get("drift"):
                     v.drift += 1
                     if v.drift <= 3: vlib.log("DRIFT property=C09 behaviour %s of %s: %s" % (r.get("behaviour"), info["instance"], r["drift"][:300]))
+        hits, clean = f_dir.result()
+        notes["known_finding_directed"] = {"id": "HputBeforeAlias", "reproduced": len(hits), "clean": clean}
+        if hits:
+            if not v.known_finding("HputBeforeAlias", "PutBefore / PutBehind with a reference key that aliases the table's own key storage, Put reallocates: " + hits[0][:200]):
+                violation("PutBefore(k, *t.GetFirstKey(), v) on a full table: " + hits[0], {"argv": [ht, "directed", "putbefore-alias"]}, "directed")
         for f in f_rnd:
             info, rows, val, crash = f.result()
             if crash: violation(crash["what"], crash["replay"], "random-crash"); notes["random_configs"].append(dict(info, crashed=True)); continue
